@@ -249,3 +249,27 @@ CLAIMED["C19"]["technique"] += ", cut-by-position clause of the discovery parse,
 CLAIMED["C19"]["text"] += "; the directory walk at start-up is dominated by the test of the persist path itself against the empty string; the index is parsed from the name cut off by position"
 CLAIMED["C20"]["technique"] += ", add-then-go rule for the termination WaitGroup, no-path-no-walk rule"
 CLAIMED["C20"]["text"] += "; every Add to the termination WaitGroup is followed by a go statement before the function adds again or returns"
+
+CLAIMED["C16"]["technique"] += ", foreign-database-through-its-own-command-object rule (the one lock-instance question of the code base)"
+CLAIMED["C16"]["text"] += "; a mutating method of the database type is called on the command object's own database, on the caller's, or on a database for which the function makes a command object"
+CLAIMED["C08"]["technique"] += ", foreign-database-through-its-own-command-object rule"
+
+# --- additions after the eighth batch of seeded changes (DESIGN.md §5.1h)
+CLAIMED["C01"]["technique"] += ", made-with-length-then-appended rule for slices"
+CLAIMED["C06"]["technique"] += ", made-with-length-then-appended rule for slices (key-name lists)"
+CLAIMED["C06"]["text"] += "; a slice created with a length is filled by index, not appended to"
+CLAIMED["C08"]["technique"] += ", package-state-under-a-package-lock rule"
+CLAIMED["C10"]["technique"] += ", watch-only-inserts rule for the WATCH handler, bump-names-a-key rule"
+CLAIMED["C10"]["text"] += "; WATCH inserts into the existing table; the name handed to the version helper is a key-name parameter"
+CLAIMED["C12"]["technique"] += ", always-through-the-blocking-worker path rule for the five handlers, no-rounding rule for the deadline"
+CLAIMED["C12"]["text"] += "; every non-error path of a blocking handler enters the blocking worker; no time is rounded or truncated inside it"
+CLAIMED["C14"]["technique"] += ", each-round-flushes-the-round's-database rule for FLUSHALL"
+CLAIMED["C14"]["text"] += "; in FLUSHALL's loop the handler's own command object is used only where the current database was compared equal to its own"
+CLAIMED["C15"]["technique"] += ", children-pass-the-converter rule for the collection helpers, version-read-after-the-handler rule for the dispatcher, reported-version-read-after-the-switch rule for HELLO"
+CLAIMED["C15"]["text"] += "; every child put into a flattened collection comes out of the down-converter; the dispatcher decides about the conversion with the version read after the handler returned; HELLO reports the version it switched to"
+CLAIMED["C16"]["technique"] += ", goroutine-captures-no-reassigned-variable rule, package-state-under-a-package-lock rule, fresh-command-object-draws-its-own-id clause"
+CLAIMED["C16"]["text"] += "; no goroutine literal captures a variable its starter assigns again; a package-level struct written field by field from connection code is written under a package-level mutex"
+CLAIMED["C19"]["technique"] += ", walk-callback-returns-only-load-errors rule, header-count-is-the-element-count rule, payload-decoded-for-every-header rule, no-clock-on-the-save-path rule"
+CLAIMED["C19"]["text"] += "; the start-up walk is ended only by a failed load; the header announces the dictionary's element count itself; the loader decodes the payload of every record whose header it decoded; the save path does not read the clock"
+CLAIMED["C20"]["technique"] += ", constructor-does-not-load rule, no-clock-on-the-save-path rule"
+CLAIMED["C20"]["text"] += "; the exported constructor does not reach the snapshot loader"
